@@ -2,7 +2,13 @@
    descriptions.  Statements only; proofs live in Proofs/Signaling.v and
    Proofs/SignalingHist.v.  `run ops` is the PeerConnection after any history of
    CreateOffer / CreateAnswer / SetLocalDescription / SetRemoteDescription /
-   Close calls; `step` is one more call on the code as it is. *)
+   Close calls; `step` is one more call on the code as it is.  Close may stand
+   anywhere in a history (the calls after it are rejected with InvalidState);
+   CreateOffer / CreateAnswer carry the outcome of SDP generation, which is
+   outside the model: a refusal ("excessive retries in CreateOffer", a
+   transceiver without a matching mid, an ICE agent that cannot be created) is
+   the error class Generate and leaves the whole record alone
+   (c01_create_close_keep_negotiation). *)
 From Coq Require Import List Bool NArith String.
 Import ListNotations.
 From Verif Require Import Common.Base Model.Signaling Proofs.Signaling Proofs.SignalingHist.
@@ -74,6 +80,19 @@ Theorem c01_exchange_makes_current_remote_offer : forall ops o mid a n1 n3,
 Proof. exact exchange_remote_offer. Qed.
 Print Assumptions c01_exchange_makes_current_remote_offer.
 
+(* CreateOffer / CreateAnswer - accepted, rejected or refused inside SDP
+   generation - never touch the signaling state, the four descriptions or the
+   event log; Close moves the state to closed and nothing else *)
+Theorem c01_create_close_keep_negotiation : forall ops id snd gen,
+  same_slots (fst (step (run ops) (OCreateOffer id gen))) (run ops) /\
+  same_slots (fst (step (run ops) (OCreateAnswer id snd gen))) (run ops) /\
+  fst (step (run ops) OClose) = close_pc (run ops).
+Proof.
+  intros ops id snd gen. split; [apply create_offer_slots|].
+  split; [apply create_answer_slots | reflexivity].
+Qed.
+Print Assumptions c01_create_close_keep_negotiation.
+
 (* ---- the premises are satisfiable on non-trivial histories ---- *)
 Definition tx (id : N) : txt := {| t_id := id; t_fl := good_flags |}.
 Definition ds (ty : sdptype) (id : N) : desc := {| d_ty := ty; d_txt := tx id |}.
@@ -81,8 +100,8 @@ Definition ds (ty : sdptype) (id : N) : desc := {| d_ty := ty; d_txt := tx id |}
 (* offerer: create, set-local; a rejected stale offer and a remote pranswer in
    between; remote answer *)
 Example c01_offerer_history :
-  let ops := [OCreateOffer 16] in
-  let mid := [OSetLocal (ds Offer 99); OSetRemote (ds Pranswer 48); OCreateOffer 64] in
+  let ops := [OCreateOffer 16 true] in
+  let mid := [OSetLocal (ds Offer 99); OSetRemote (ds Pranswer 48); OCreateOffer 64 true] in
   exists n1 n3,
     step (run ops) (OSetLocal (ds Offer 16)) = (n1, Ok tt) /\
     never_stable as_is n1 mid /\
@@ -97,7 +116,7 @@ Qed.
 
 (* answerer, with a local pranswer and an empty-text answer (JSEP 5.4) *)
 Example c01_answerer_history :
-  let mid := [OCreateAnswer 32 true; OSetLocal (ds Pranswer 32); OSetRemote (ds Offer 16)] in
+  let mid := [OCreateAnswer 32 true true; OSetLocal (ds Pranswer 32); OSetRemote (ds Offer 16)] in
   exists n1 n3,
     step (run []) (OSetRemote (ds Offer 16)) = (n1, Ok tt) /\
     never_stable as_is n1 mid /\
@@ -142,3 +161,18 @@ Example c01_generated_nontrivial :
     = (1%Z, Some "rtcerr.InvalidModificationError"%string) /\
   GenSignaling.sig_state_of_Z 2%Z = HaveLocalOffer /\ GenSignaling.sig_state_of_Z 99%Z = SOut.
 Proof. repeat split; reflexivity. Qed.
+
+(* a refused CreateOffer in the middle of an exchange, and a Close before the
+   answer arrives: the refusal changes nothing (the last offer stays the one
+   SetLocalDescription accepts), after Close every call is InvalidState *)
+Example c01_refused_create_and_close :
+  let n := run [OCreateOffer 16 true; OCreateOffer 32 false] in
+  snd (step (run [OCreateOffer 16 true]) (OCreateOffer 32 false)) = Err EGenerate /\
+  n = run [OCreateOffer 16 true] /\
+  snd (step n (OSetLocal (ds Offer 16))) = Ok tt /\
+  let c := run [OCreateOffer 16 true; OSetLocal (ds Offer 16); OClose] in
+  st c = SClosed /\ events c = [HaveLocalOffer] /\ pendL c = Some (ds Offer 16) /\
+  snd (step c (OSetRemote (ds Answer 48))) = Err EInvalidState /\
+  snd (step c (OCreateOffer 64 true)) = Err EInvalidState /\
+  fst (step c (OSetRemote (ds Answer 48))) = c.
+Proof. cbn zeta. repeat split; reflexivity. Qed.
